@@ -116,10 +116,14 @@ func (p *Proc) Process(ctx context.Context, recs []opencdc.Record) []sdk.Process
 			}
 		}
 		r = r.Clone()
+		// work on a copy, as a plugin behind the SDK boundary does: the engine's own record must not change unless it
+		// stores the result
+		r = r.Clone()
 		if r.Metadata == nil {
 			r.Metadata = opencdc.Metadata{}
 		}
 		r.Metadata["verif.gen"] = p.gen
+		r.Metadata["verif.path"] += p.S.Name + ","
 		switch kind {
 		case "pass", "":
 			out = append(out, sdk.SingleRecord(r))
